@@ -353,3 +353,126 @@ SCENARIOS.append(Scenario("C13.export.attr_name_conflict", s_attr_name_conflict,
                           [(REL, "_Exporter._translate_function_signature"), (REL, "_Exporter._translate_function_signature.attr_sig"),
                            (REL, "_Exporter._handle_attrname_conflict"), (REL, "_Exporter._handle_attrname_conflict.new_renamer")],
                           kind="bounded", bound="attribute parameters among alpha, alpha_0, alpha_1; other used names among alpha_0..alpha_2, x"))
+
+
+def s_operator_text_structure(_ctx):
+    """use_operators rendering (real _Exporter._translate_node): the emitted text `out = a <op> b` must PARSE to the binary
+    operation of exactly the two operand expressions, whatever text stands for the operands (a variable, or an inlined
+    constant: positive / negative number, list)."""
+    import onnx
+    from onnx import helper
+    from contracts.c17_opsets import Agg
+    from pyvc.core import Ctx
+    exp = _exp()
+    agg = Agg()
+    cl = "C13: 'it never emits text that is not valid Python or that denotes a different computation' (use_operators, inline_const)"
+    operand_texts = {"variable": None, "positive literal": "2.0", "negative literal": "-2.0", "negative int": "-3", "list literal": "[-1.0, 2.0]"}
+    ops = ["Add", "Sub", "Mul", "Div", "Pow", "MatMul", "And", "Or", "Greater", "Equal", "GreaterOrEqual", "LessOrEqual"]
+    n = 0
+    for op_type in ops:
+        for lk, lt in operand_texts.items():
+            for rk, rt in operand_texts.items():
+                n += 1
+                ctx = Ctx([], {"solver_s": 0.0, "queries": 0})
+                I = Interp(ctx)
+                self = SObj(exp._Exporter, "exporter")
+                consts = {}
+                if lt is not None:
+                    consts["a"] = lt
+                if rt is not None:
+                    consts["b"] = rt
+
+                def ident(nm):
+                    raise AssertionError
+                I.models[ident] = lambda interp, nm: nm
+                self.fields.update(use_operators=True, inline_const=True, constants=consts, _name_remappings=[], _rename_variable=ident)
+                node = helper.make_node(op_type, ["a", "b"], ["out"])
+                try:
+                    text = I.run_closure(I.closure_of(exp._Exporter._translate_node), [self, node, {"": 18}], {})
+                except Exception as e:  # noqa: BLE001
+                    agg.ob("C13.export.operator_text.parses_to_the_operation_of_its_two_operands", False, f"{op_type} {lk} {rk}: {type(e).__name__}: {e}", cl,
+                           case=f"{op_type}: {lk} / {rk}")
+                    continue
+                ok, detail = False, f"{op_type} with {lk} and {rk}: emitted {text!r}"
+                try:
+                    tree = ast.parse(text.strip()).body[0]
+                    rhs = tree.value
+                    if "=" not in text or not isinstance(tree, ast.Assign):
+                        raise SyntaxError("not an assignment")
+                    if isinstance(rhs, ast.Compare):
+                        left, right = rhs.left, rhs.comparators[0]
+                        simple = len(rhs.ops) == 1
+                    elif isinstance(rhs, ast.BinOp):
+                        left, right, simple = rhs.left, rhs.right, True
+                    else:
+                        left = right = None
+                        simple = False
+                    want_l = ast.dump(ast.parse(lt or "a", mode="eval").body)
+                    want_r = ast.dump(ast.parse(rt or "b", mode="eval").body)
+                    ok = simple and left is not None and ast.dump(left) == want_l and ast.dump(right) == want_r
+                    if not ok:
+                        detail += f" which parses as {ast.dump(rhs)[:160]}"
+                except SyntaxError as e:
+                    detail += f" — not valid Python ({e})"
+                agg.ob("C13.export.operator_text.parses_to_the_operation_of_its_two_operands", ok, detail, cl, case=f"{op_type}: {lk} / {rk}")
+    return {"obligations": agg.obs, "paths": n, "covered": [f"operator_renderings={n}"], "notes": [], "functions": []}
+
+
+SCENARIOS.append(Scenario("C13.export.operator_text", s_operator_text_structure, [(REL, "_Exporter._translate_node"), (REL, "_Exporter._translate_onnx_var_ref"),
+                                                                                  (REL, "_Exporter._translate_onnx_var")], kind="evaluation"))
+
+
+def s_decorator_default_opset(ctx):
+    """_translate_graph / _translate_function: the generated @script(...) decorator must name the imported standard
+    opset as default_opset — with use_operators a body may consist of operators only (`y = a + b`), and the converter
+    refuses a function that neither uses an opset nor declares a default one."""
+    import onnx
+    from pyvc.values import SInt
+    I = Interp(ctx)
+    exp = _exp()
+    self = SObj(exp._Exporter, "exporter")
+    v = [1, 13, 18, 23][ctx.choose(4, "opset version")]
+    has_default = ctx.choose(2, "the standard domain is imported") == 0
+    which = ctx.choose(2, "graph (0) or function (1)")
+    use_ops = ctx.choose(2, "use_operators") == 0
+    self.fields.update(use_operators=use_ops, skip_initializers=False, skipped_initializers={}, _name_remappings=[], _attr_renaming={}, _names_used=set(), constants={})
+
+    def ident(n):
+        raise AssertionError
+    I.models[ident] = lambda interp, n: n
+    self.fields["_rename_variable"] = ident
+    I.models[exp._Exporter._translate_graph_body] = lambda interp, slf, g, opsets, indent=0: "    body"
+    I.models[exp._Exporter._translate_node] = lambda interp, slf, n, opsets, indent=0: "    node"
+    I.models[exp._translate_signature] = lambda interp, i, o: "(x):"
+    I.models[exp._Exporter._translate_function_signature] = lambda interp, slf, f: "(x):"
+    I.models[exp._names_used_in_function] = lambda interp, f: []
+
+    def imp(domain, version):
+        o = SObj(onnx.OperatorSetIdProto, "opsetid")
+        o.fields.update(domain=domain, version=version)
+        return o
+    imports = ([imp("", v)] if has_default else []) + [imp("custom", 1)]
+    if which == 0:
+        g = SObj(onnx.GraphProto, "graph")
+        g.fields.update(name="g", input=[], output=["y"], doc_string="", value_info=[])
+        m = SObj(onnx.ModelProto, "model")
+        m.fields.update(graph=g, opset_import=imports)
+        text = I.run_closure(I.closure_of(exp._Exporter._translate_graph), [self, m, "main"], {})
+    else:
+        f = SObj(onnx.FunctionProto, "funproto")
+        f.fields.update(domain="custom", name="f", input=["x"], output=["y"], node=["n"], doc_string="", opset_import=imports, attribute=[], attribute_proto=[])
+        text = I.run_closure(I.closure_of(exp._Exporter._translate_function), [self, f], {})
+    deco = text.split("\n")[0] if isinstance(text, str) else ""
+    want = f"default_opset=opset{v}"
+    if not use_ops:
+        ctx.cover("decorator without use_operators: every node is an opset call, no default needed")
+        ctx.check("C13.export.decorator.is_a_script_decorator", "@script(" in deco, "C13")
+    elif has_default:
+        ctx.check("C13.export.decorator.names_the_imported_standard_opset_as_default_opset", "@script(" in deco and want in deco and deco.rstrip().endswith(")"),
+                  "C13: 'under every export option (... use_operators ...)' the emitted text 'is a script whose to_model_proto() ...' — a body of operators only needs a default opset")
+    else:
+        ctx.check("C13.export.decorator.no_default_opset_without_the_standard_domain", "default_opset" not in deco, "C13")
+
+
+SCENARIOS.append(Scenario("C13.export.decorator", s_decorator_default_opset, [(REL, "_Exporter._translate_graph"), (REL, "_Exporter._translate_function"),
+                                                                              (REL, "_Exporter._make_opset_name"), (REL, "_Exporter._rename_domain")]))
